@@ -40,6 +40,7 @@ def run(chk, tier, seed):
     # liveness: under fairness the reader model always reaches "ok" or "fail" (no byte string makes it loop)
     bc.model_check(chk, ["Basic_be_live.cfg", "Basic_le_live.cfg"])
     cases += list(bc.gen_hostile(rnd, quick))
+    cases += [c for c in bc.gen_tokens_sweep(tabs, quick)]          # every byte as a token, mid-line and at the end of a line, every dialect
     with common.Scratch("c08") as scratch:
         def do(ic):
             i, (label, d, listo, data) = ic
